@@ -465,6 +465,9 @@ fn call(ctx: &mut Ctx, e: &Entry, kind: &'static str, input: &[u8], a: &Aux, s: 
                     json!({"entry": e.name, "peak_live_bytes": o.peak, "bound": bound, "input_len": input.len(), "aux_len": a.len, "input_hex": hex_short(input)}),
                 );
             }
+            if ctx.wants_sample() {
+                ctx.sample(json!({"entry": e.name, "input_kind": kind, "input_hex": hex_short(input), "aux_len": a.len, "class": (["Ok", "Error", "Incomplete", "Failure"][o.class as usize]), "peak_heap_bytes": o.peak, "formatted_text_bytes": s.len()}));
+            }
             match o.class {
                 0 => ctx.count("class.ok"),
                 2 => ctx.count("class.incomplete"),
